@@ -674,6 +674,9 @@ func runC20(c *Ctx, r *Report) {
 		c09r1(c, r) // the selection is changed only by selectItem/deselectItem ...
 		c20r9(c, r) // ... which mark the preview stale
 		c20r10(c, r)
+		c20r11(c, r)
+		c12r7(c, r) // whether a preview depends on the selection is the OR over its placeholders
+		c20r12(c, r)
 	}()
 	loop := l.Fn("fzf", "(*Terminal).Loop")
 	cancelP := l.Fn("fzf", "(*Terminal).cancelPreview")
